@@ -29,6 +29,21 @@ Fixpoint uids_distinct (seen : list N) (ss : list N) : bool :=
 Definition certsect_hdr (cb : certblk) : hdr :=
   mkHdr TAG_TAG CERTSECT_FLAGS CERTSECT_MARK (N.of_nat (cb_raw_size cb / 16)) CERTSECT_HDR_DATA.
 
+(* the boot ROM starts at the section whose id equals the header's first_boot_section_id *)
+Fixpoint find_uid_index (u : N) (uids : list N) : option nat :=
+  match uids with
+  | [] => None
+  | x :: t => if x =? u then Some 0%nat else match find_uid_index u t with Some i => Some (S i) | None => None end
+  end.
+
+(* first_boot_section_id as the ROM reads it from the 96-byte image header *)
+Definition hdr_first_boot_section_id (file : list N) : option N :=
+  match unpack rom_imghdr_layout file with
+  | [FB _; FB _; FB _; FI _; FI _; FI _; FI _; FI _; FI fbsid; FI _; FI _; FI _; FI _; FI _;
+     FB _; FI _; FI _; FI _; FI _; FI _; FI _; FI _; FI _; FI _; FI _; FI _; FI _; FI _; FI _; FB _] => Some fbsid
+  | _ => None
+  end.
+
 Section Cipher20.
 Variable E : list N -> list N -> list N.     (* key -> block -> block *)
 Variable D : list N -> list N -> list N.
@@ -160,12 +175,13 @@ Definition parse20 (sig_ok : bool) (kek data : list N) : res parsed20 :=
 
 (* ---------------- the boot ROM for SB 2.0, from the container layout *)
 Record rom20_out := mkRom20 { t_signed : bool; t_pv : N * N * N; t_cv : N * N * N; t_build : N; t_ts : N;
-                              t_secs : list (N * list rcmd); t_signed_len : nat; t_sig : list N }.
+                              t_secs : list (N * list rcmd); t_signed_len : nat; t_sig : list N;
+                              t_boot_index : nat (* position of the section the ROM starts with *) }.
 
 Definition rom20 (sigsize : nat) (kek file : list N) : option rom20_out :=
   if Nat.ltb (length file) 208 then None
   else match unpack rom_imghdr_layout file with
-  | [FB nonce; FB _; FB s1; FI mj; FI mn; FI fl; FI ib; FI fbtb; FI _; FI co; FI hb; FI kbb; FI kbbc; FI _;
+  | [FB nonce; FB _; FB s1; FI mj; FI mn; FI fl; FI ib; FI fbtb; FI fbsid; FI co; FI hb; FI kbb; FI kbbc; FI _;
      FB s2; FI ts; FI p0; FI _; FI p1; FI _; FI p2; FI _; FI c0; FI _; FI c1; FI _; FI c2; FI _; FI bn; FB _] =>
       if negb (eqb_list s1 [83; 84; 77; 80] && eqb_list s2 [115; 103; 116; 108]) then None       (* "STMP", "sgtl" *)
       else if negb ((mj =? 2) && (mn =? 0)) then None
@@ -213,12 +229,30 @@ Definition rom20 (sigsize : nat) (kek file : list N) : option rom20_out :=
                   else match rom_sections (E dek) (S (length file)) mac nonce (firstn stop file) start stop with
                        | None => None
                        | Some secs =>
-                           Some (mkRom20 signed (bswap p0, bswap p1, bswap p2) (bswap c0, bswap c1, bswap c2) bn ts secs
-                                         stop (skipn stop file))
+                           (* the section to start with is the one that carries first_boot_section_id *)
+                           match find_uid_index fbsid (map fst secs) with
+                           | None => None
+                           | Some bi =>
+                               Some (mkRom20 signed (bswap p0, bswap p1, bswap p2) (bswap c0, bswap c1, bswap c2) bn ts secs
+                                             stop (skipn stop file) bi)
+                           end
                        end
               end
         end
   | _ => None
+  end.
+
+(* SB 2.1: the ROM of Model/Sb2Model.v plus the location of the first boot section by first_boot_section_id *)
+Definition rom21_boot (sigsize : nat) (kek file : list N) : option (rom_out * nat) :=
+  match rom21 E D sigsize kek file with
+  | None => None
+  | Some r => match hdr_first_boot_section_id file with
+              | None => None
+              | Some fbsid => match find_uid_index fbsid (map fst (r_secs r)) with
+                              | None => None
+                              | Some bi => Some (r, bi)
+                              end
+              end
   end.
 
 End Cipher20.
@@ -227,6 +261,7 @@ End Cipher20.
 Definition build20 : sb20in -> res (list N) := build20_gen sbE.
 Definition spsdk_parse20 := parse20 sbE sbD.
 Definition rom20_aes := rom20 sbE sbD.
+Definition rom21_boot_aes := rom21_boot sbE sbD.
 
 Definition sb20in_of_value (v : value) : option sb20in :=
   match v with
@@ -247,13 +282,17 @@ Definition vparsed20 (p : parsed20) : value :=
 
 Definition vrom20 (r : rom20_out) : value :=
   VList [vbool (t_signed r); v3 (t_pv r); v3 (t_cv r); vN (t_build r); vN (t_ts r);
-         VList (map (fun s => VList [vN (fst s); VList (map vrcmd (snd s))]) (t_secs r)); vnat (t_signed_len r); VBytes (t_sig r)].
+         VList (map (fun s => VList [vN (fst s); VList (map vrcmd (snd s))]) (t_secs r)); vnat (t_signed_len r); VBytes (t_sig r);
+         vnat (t_boot_index r)].
 
-(* function ids: 1 build20 [sb20in] -> bytes; 2 spsdk_parse20 [sig_ok; kek; data]; 3 rom20 [sigsize; kek; data] *)
+(* function ids: 1 build20 [sb20in] -> bytes; 2 spsdk_parse20 [sig_ok; kek; data]; 3 rom20 [sigsize; kek; data];
+   4 rom21 with the first boot section located by id [sigsize; kek; data] -> [rom output; boot index] *)
 Definition run_case20 (fn : Z) (args : list value) : value :=
   match fn, args with
   | 1%Z, [v] => match sb20in_of_value v with Some y => vres VBytes (build20 y) | None => VErr E_BADCASE end
   | 2%Z, [VInt ok; VBytes kek; VBytes data] => vres vparsed20 (spsdk_parse20 (negb (ok =? 0)%Z) kek data)
   | 3%Z, [VInt sigsize; VBytes kek; VBytes data] => vopt vrom20 (rom20_aes (Z.to_nat sigsize) kek data)
+  | 4%Z, [VInt sigsize; VBytes kek; VBytes data] =>
+      vopt (fun p => VList [vrom (fst p); vnat (snd p)]) (rom21_boot_aes (Z.to_nat sigsize) kek data)
   | _, _ => VErr E_BADCASE
   end.
